@@ -223,6 +223,25 @@ func checkC06(c *Ctx) *report.Result {
 	for _, reg := range oracle.IORegs() {
 		c.checkReadBack(r, reg)
 	}
+	// unused bits read 1 in every state, not only after a write (power-on included): the read is
+	// evaluated from the generic state, whose cells hold the invariant inferred over New and every entry
+	r.Rule("B-ones", "IF, TAC and STAT read their unused bits as 1 from every reachable state, power-on included (read evaluated on the inferred invariant)")
+	for _, reg := range oracle.IORegs() {
+		if reg.Ones == 0 {
+			continue
+		}
+		ev := c.evalDecoder(false, reg.Addr, reg.Addr, nil, nil)
+		iv, _ := ev.Result.(*ai.Int)
+		var bad []string
+		for i := 0; i < 8 && iv != nil; i++ {
+			if reg.Ones&(1<<uint(i)) != 0 && iv.Bits[i].K != ai.BOne {
+				bad = append(bad, fmt.Sprintf("bit %d reads %s", i, iv.Bits[i].String()))
+			}
+		}
+		r.Ob("B-ones", iv != nil && len(bad) == 0 && len(ev.Undecided) == 0, fmt.Sprintf("%s (%04X) unused bits from any state", reg.Name, reg.Addr), hposOf(c, ev), fmt.Sprintf("reads %s; documented mask %02X always 1: %s %v", ai.ValueString(ev.Result), reg.Ones, strings.Join(bad, "; "), ev.Undecided))
+	}
+	r.Rule("B-oamplain", "OAM is plain memory outside the OAM-bug window: the window flag is closed whenever the LCD is off or the PPU is outside mode 2 (rules O-pair / O-arm of C17 re-stated)")
+	adopt(r, c.sibling("C17"), map[string]string{"O-pair": "B-oamplain", "O-arm": "B-oamplain"}, "with the window left open a CPU access to FE00-FEFF rewrites other OAM rows, so OAM does not read back what was written")
 	return r
 }
 
@@ -305,6 +324,41 @@ func (c *Ctx) checkPlain(r *report.Result, reg oracle.Region, ev *DecEval, name 
 		if iv, isInt := ev.Result.(*ai.Int); !isInt || iv == nil {
 			ok = false
 			detail += "; result is not the loaded byte"
+		}
+	}
+	// on every path: the read answers with the loaded byte itself, the write stores unconditionally
+	// (VRAM and OAM under the statement's precondition: LCD off, no transfer running)
+	setup := func(st *ai.State) {}
+	if reg.Name == "OAM" || reg.Name == "VRAM" {
+		pm := c.ppuModel()
+		nd := c.noDMA()
+		setup = func(st *ai.State) {
+			if len(pm.Errors) == 0 {
+				st.SetCell(pm.PPU, pm.Enabled, ai.NewConstBool(false))
+				st.SetCell(pm.OAM, ".corrupt", ai.NewConstBool(false))
+			}
+			if reg.Name == "OAM" {
+				nd(st)
+			}
+		}
+	}
+	if !ev.Write {
+		same, n, got := c.readReturnsLoadedByte(ev.Lo, ev.Hi, setup)
+		if !same || n != 1 {
+			ok = false
+			detail += fmt.Sprintf("; on some path the value returned is not the stored byte (element loads %d, returns %s)", n, got)
+		}
+	} else {
+		w := c.evalDecoder(true, ev.Lo, ev.Hi, setup, nil)
+		for cell, v := range w.Stores {
+			if strings.HasPrefix(cell, h.Array) {
+				for _, d := range ai.DepsOf(v) {
+					if d != w.ValSym && d != w.AddrSym {
+						ok = false
+						detail += fmt.Sprintf("; the store is conditional on or mixed with %s", c.W.It.SymName(d))
+					}
+				}
+			}
 		}
 	}
 	r.Ob(rule, ok, name, where, detail)
